@@ -283,6 +283,10 @@ func VH_H_CreateSchedule() {
 		vx.Assert(b != nil && h != nil, "C20:http-kernel-called-only-with-a-bound-request")
 		vx.Assert(q.Id == b.Id && q.Description == b.Description && q.Cron == b.Cron && vx.MapEq(q.Tags, b.Tags) && q.PromiseId == b.PromiseId && vx.SameDatum(q.PromiseTimeout, b.PromiseTimeout) &&
 			vhValueEq(q.PromiseParam, b.PromiseParam) && vx.MapEq(q.PromiseTags, b.PromiseTags) && vhIkeyEq(q.IdempotencyKey, h.IdempotencyKey), "C20:http-request-fields-copied")
+		if b != nil && h != nil {
+			vx.Accepts(b.PromiseTimeout == 0 && b.Description == "" && h.IdempotencyKey == nil, "C15:http-accepts-minimal-schedule")
+			vx.Accepts(b.PromiseTimeout == 1<<62 && h.IdempotencyKey != nil, "C15:http-accepts-schedule-with-huge-timeout-and-key")
+		}
 		if k.err == nil && k.res.CreateSchedule.Status.IsSuccessful() {
 			p, ok := vx.HttpBody(0).(*schedule.Schedule)
 			vx.Assert(ok && p == k.res.CreateSchedule.Schedule, "C20:http-reply-is-the-kernel-schedule")
@@ -384,6 +388,9 @@ func VH_H_CompleteTask() {
 		} else {
 			b, _ := vx.GinBound("JSON", 0).(*completeTaskBody)
 			vx.Assert(b != nil && q.Id == b.Id && q.Counter == b.Counter, "C20:http-request-fields-copied")
+			if b != nil {
+				vx.Accepts(b.Counter == 1, "C15:http-accepts-complete-task-first-counter")
+			}
 		}
 	}
 }
